@@ -44,6 +44,7 @@
 %option noyywrap nounput batch noinput
 
 %option reentrant
+%option extra-type="parse_aux *"
 
 ALNUM [_a-zA-Z0-9]*
 ID  [_a-zA-Z]{ALNUM}
@@ -99,11 +100,13 @@ OCT [0-7]
 "\"" {
   BEGIN STRING;
   yylval->f = new fmtlit {false};
+  yyget_extra (yyscanner)->f = yylval->f;
 }
 
 "r\"" {
   BEGIN STRING;
   yylval->f = new fmtlit {true};
+  yyget_extra (yyscanner)->f = yylval->f;
 }
 
 <STRING>"\\"[0-3]{OCT}?{OCT}? {
@@ -157,6 +160,7 @@ OCT [0-7]
 
   yylval->t = new tree {f->t};
 
+  yyget_extra (yyscanner)->f = nullptr;
   delete f;
 
   return TOK_LIT_STR;
